@@ -349,6 +349,55 @@ def check_read_ahead(case, res, out):
                 'at event %s; bound is buffer_size = %d' % (ep, ms, where_s, b)))
 
 
+# ----------------------------------------------- bounded systematic schedules
+def one_preemption_cases(base_case, run_case, max_cases=900):
+    """All schedules of base_case with exactly one forced context switch.
+
+    The baseline is the non-preemptive schedule (choices=[]: a thread runs until
+    it blocks or ends, then the lowest-numbered runnable thread continues).  Up
+    to a forced switch the execution is identical to the baseline, so 'switch to
+    candidate c at decision i' is well defined for every decision i of the
+    baseline; after the switch the run continues non-preemptively.  Candidates
+    are the runnable threads plus the timed waiters (timeouts) at that decision.
+    Returns the baseline case followed by one case per (i, c), c in 0..2 (at
+    most three simulated threads are runnable in the tiny workloads used)."""
+    base = json.loads(json.dumps(base_case))
+    base['sched'] = {'policy': 'random', 'seed': 0, 'choices': []}
+    res = run_case(base)
+    d = res['stats']['decisions']
+    cases = [base]
+    for i in range(d):
+        for c in range(3):
+            k = json.loads(json.dumps(base))
+            k['sched']['choices'] = [[i, c]]
+            cases.append(k)
+            if len(cases) >= max_cases:
+                return cases
+    return cases
+
+
+TINY = [
+    # (n, stages after map u0)
+    (2, [{'op': 'prefetch', 'w': 1, 'b': 1, 'backend': 't'}]),
+    (3, [{'op': 'prefetch', 'w': 1, 'b': 1, 'backend': 't'}]),
+    (3, [{'op': 'prefetch', 'w': 1, 'b': 2, 'backend': 't'}]),
+    (2, [{'op': 'prefetch', 'w': 2, 'b': 2, 'backend': 't'}]),
+    (3, [{'op': 'prefetch', 'w': 2, 'b': 2, 'backend': 't'}]),
+    (2, [{'op': 'parmap', 'id': 'p', 'w': 1, 'b': 1, 'backend': 't'}]),
+    (3, [{'op': 'parmap', 'id': 'p', 'w': 2, 'b': 2, 'backend': 't'}]),
+    (2, [{'op': 'prefetch', 'w': 1, 'b': 1, 'backend': 't', 'catch': True}]),
+    (2, [{'op': 'prefetch', 'w': 2, 'b': 2, 'backend': 'dill_mp'}]),
+    (2, [{'op': 'prefetch', 'w': 2, 'b': 2, 'backend': 'mp'}]),
+    (2, [{'op': 'prefetch', 'w': 2, 'b': 2, 'backend': 'multiprocessing'}]),
+]
+
+
+def tiny_desc(rng):
+    n, st = TINY[rng.randrange(len(TINY))]
+    return {'source': {'kind': rng.choice(['list', 'dict']), 'n': n},
+            'stages': [{'op': 'map', 'id': 'u0'}] + json.loads(json.dumps(st))}
+
+
 # ------------------------------------------------------------------ shrink
 def _valid(desc):
     try:
